@@ -99,7 +99,93 @@ def check(run, repo, world):
         _check_proto(run, world, folder, mod, c)
 
 
+def _check_defassign(run, world, mod, c):
+    """No UnboundLocalError on the receive path: in every method reachable
+    from data_received, a local variable is assigned on every path to each
+    of its reads (definite assignment, must-analysis on the CFG)."""
+    run.rule("R-FSM-DEF", "receive path: every local is assigned on all "
+             "paths before it is read (no UnboundLocalError for any input)")
+    from ..cfg import forward, _stored_names
+    reach, stack = set(), ["data_received"]
+    while stack:
+        m = stack.pop()
+        if m in reach or m not in c.methods:
+            continue
+        reach.add(m)
+        for n in ast.walk(c.methods[m][1]):
+            if isinstance(n, ast.Call) and isinstance(
+                    n.func, ast.Attribute) and isinstance(
+                        n.func.value, ast.Name) and n.func.value.id in (
+                            "self", "cls"):
+                stack.append(n.func.attr)
+    run.analysed["receive-path methods of %s" % c.name] = len(reach)
+    if len(reach) < 3:
+        raise AnalysisError("%s: receive path not found from data_received"
+                            % c.qname)
+
+    def loads(node):
+        a = node.ast
+        if a is None:
+            return []
+        roots = [a]
+        if node.kind == "for":
+            roots = [a.iter]
+        elif node.kind == "with_enter":
+            roots = [i.context_expr for i in a.items]
+        elif node.kind == "except":
+            roots = [a.type] if a.type is not None else []
+        out = []
+        for r in roots:
+            comp = set()
+            for n in ast.walk(r):
+                if isinstance(n, (ast.ListComp, ast.SetComp, ast.DictComp,
+                                  ast.GeneratorExp)):
+                    for g in n.generators:
+                        for t in ast.walk(g.target):
+                            if isinstance(t, ast.Name):
+                                comp.add(t.id)
+            for n in _walk_no_nested(r):
+                if isinstance(n, ast.Name) and isinstance(
+                        n.ctx, ast.Load) and n.id not in comp:
+                    out.append(n)
+        return out
+    for m in sorted(reach):
+        fn = c.methods[m][1]
+        cfg = CFG(fn, may_raise=explicit_raise_only, name=c.qname + "." + m)
+        params = {a.arg for a in fn.args.args + fn.args.kwonlyargs}
+        if fn.args.vararg:
+            params.add(fn.args.vararg.arg)
+        if fn.args.kwarg:
+            params.add(fn.args.kwarg.arg)
+        locals_ = set()
+        for n in cfg.reachable:
+            if n.kind in ("stmt", "for", "with_enter", "except"):
+                locals_ |= _stored_names(n)
+
+        def tr(node, st):
+            return st | frozenset(_stored_names(node))
+        IN = forward(cfg, tr, init=frozenset(params), must=True)
+        bad = {}
+        for n in cfg.reachable:
+            st = IN.get(n.id)
+            if st is None:
+                continue
+            for x in loads(n):
+                if x.id in locals_ and x.id not in st:
+                    bad.setdefault(x.id, n)
+        for name, n in sorted(bad.items()):
+            run.ob("R-FSM-DEF", "%s.%s#%s" % (c.qname, m, name), False,
+                   "`%s` is read at line %s but is not assigned on every "
+                   "path leading there: an input taking the other path "
+                   "raises UnboundLocalError inside the receiver"
+                   % (name, n.lineno), where(mod, n))
+        run.ob("R-FSM-DEF", "%s.%s" % (c.qname, m), not bad,
+               "locals possibly unassigned: %s" % sorted(bad),
+               where(mod, fn), trivial=bool(not bad))
+
+
 def _check_proto(run, world, folder, mod, c):
+    _check_defassign(run, world, mod, c)
     P = c.qname
     fn = c.methods["_process_byte"][1]
     rfn = c.methods["reset"][1]
